@@ -5,6 +5,7 @@ import (
 	"go/ast"
 	"go/constant"
 	"log"
+	"strconv"
 	"strings"
 	"unicode/utf8"
 
@@ -49,6 +50,8 @@ type regexpSimplifyChecker struct {
 	out *strings.Builder
 	// score is a number of applied simplifications
 	score int
+	// outerRepeats is the product of the counts of the enclosing `{n,m}` repeats.
+	outerRepeats int
 	// literalBraces are the offsets in out of every `{` written as a literal char.
 	literalBraces []int
 }
@@ -106,6 +109,7 @@ func (c *regexpSimplifyChecker) simplify(pass int, pat string) string {
 
 	c.score = 0
 	c.out.Reset()
+	c.outerRepeats = 1
 	c.literalBraces = c.literalBraces[:0]
 
 	// TODO(quasilyte): suggest char ranges for things like [012345689]?
@@ -187,6 +191,8 @@ func (c *regexpSimplifyChecker) walk(e syntax.Expr) {
 		// TODO(quasilyte): is it worth it to analyze repeat argument
 		// more closely and handle `{n,n} -> {n}` cases?
 		rep := e.Args[1].Value
+		defer func(n int) { c.outerRepeats = n }(c.outerRepeats)
+		c.outerRepeats *= repeatCount(rep)
 		switch rep {
 		case "{0,1}":
 			c.walk(e.Args[0])
@@ -329,6 +335,27 @@ func (c *regexpSimplifyChecker) endsWithShortOctal() bool {
 	s = s[:len(s)-digits]
 	slashes := len(s) - len(strings.TrimRight(s, `\\`))
 	return slashes%2 == 1
+}
+
+// maxRepeatCount is the limit Go puts on a repeat count,
+// nested repeats multiplied: `(x{6}){200}` is rejected.
+const maxRepeatCount = 1000
+
+// repeatCount returns the upper bound of a `{n}`, `{n,}` or `{n,m}` repeat
+// (the lower bound if there is no upper one), at least 1.
+func repeatCount(rep string) int {
+	bounds := strings.Split(strings.Trim(rep, "{}"), ",")
+	n, _ := strconv.Atoi(bounds[len(bounds)-1])
+	if n == 0 {
+		n, _ = strconv.Atoi(bounds[0])
+	}
+	if n < 1 {
+		return 1
+	}
+	if n > maxRepeatCount {
+		return maxRepeatCount + 1
+	}
+	return n
 }
 
 // startsWithRepeatOp reports whether s begins with `{n}`, `{n,}` or `{n,m}`.
@@ -701,7 +728,7 @@ func (c *regexpSimplifyChecker) walkConcat(concat syntax.Expr) {
 			}
 			n++
 		}
-		if n >= threshold {
+		if n >= threshold && c.outerRepeats*(n+1) <= maxRepeatCount {
 			fmt.Fprintf(c.out, "{%d}", n+1)
 			c.score++
 			i += n
